@@ -126,14 +126,30 @@ func reference(c *harness.Ctx, name string) map[string][]byte {
 	dir, _ := os.MkdirTemp(tmpRoot, "ref-")
 	defer os.RemoveAll(dir)
 	mp, deps := manifestPath(name)
+	placeCustom(name, filepath.Join(dir, "out"))
 	r := runGen(append([]string{"gen", mp, filepath.Join(dir, "out")}, deps...), "", 0, nil, filepath.Join(dir, "log"))
 	if r.exit != 0 {
 		c.Fail("C12", "generation-failed", "generation-failed:"+name, "undisturbed generation of manifest %q failed (exit %d): %s", name, r.exit, r.stderr)
 		return nil
 	}
 	files, _ := readTree(filepath.Join(dir, "out"))
+	for p := range files {
+		if !owned(p) {
+			delete(files, p) // hand-written custom typeref sources are not the generator's output
+		}
+	}
 	refTrees[name] = files
 	return files
+}
+
+// placeCustom puts the family's hand-written custom typeref sources where the generator looks for
+// them (beside the code it generates).
+func placeCustom(manifestName, outDir string) {
+	if manifestName != "family" {
+		return
+	}
+	os.MkdirAll(outDir, 0755)
+	exec.Command("cp", "-r", filepath.Join(famDir, "custom")+"/.", outDir).Run()
 }
 
 var entryKinds = []string{"gen", "user", "other", "emptydir", "dir", "manifest"}
@@ -206,17 +222,25 @@ func genfs(c *harness.Ctx) {
 	for i := range desc {
 		desc[i] = strings.TrimPrefix(desc[i], root+"/")
 	}
+	mname := []string{"small", "small", "restlidata", "family"}[c.Choose(4, "manifest")]
+	if mname == "family" {
+		// hand-written custom typeref implementations beside the generated code: foreign files
+		placeCustom(mname, target)
+		if targetMode == 1 {
+			targetMode = 0
+		}
+		c.Probe("custom-typeref-sources-in-target")
+	}
+	ref := reference(c, mname)
+	if ref == nil {
+		return
+	}
 	preFiles, _ := readTree(root)
 	foreign := map[string][]byte{}
 	for p, d := range preFiles {
 		if !owned(p) {
 			foreign[p] = d
 		}
-	}
-	mname := []string{"small", "small", "restlidata"}[c.Choose(3, "manifest")]
-	ref := reference(c, mname)
-	if ref == nil {
-		return
 	}
 	mp, deps := manifestPath(mname)
 	nops := 1 + c.Choose(4, "nops")
@@ -441,6 +465,7 @@ func gendet(c *harness.Ctx) {
 	mp, deps := manifestPath(mname)
 	stats := filepath.Join(work, "stats")
 	os.Setenv("GENSIM_STATS", stats)
+	placeCustom(mname, filepath.Join(work, "out"))
 	r := runGen(append([]string{"gen", mp, filepath.Join(work, "out")}, deps...), "", seed, nil, filepath.Join(work, "log"))
 	os.Unsetenv("GENSIM_STATS")
 	c.Sample(fmt.Sprintf("manifest=%s order-seed=%d fs-calls=%d", mname, seed, r.calls))
@@ -477,7 +502,7 @@ func gendet(c *harness.Ctx) {
 		}
 	}
 	for p := range files {
-		if _, ok := ref[p]; !ok {
+		if _, ok := ref[p]; !ok && owned(p) {
 			c.Fail("C12", "nondeterministic-fileset", "nondeterministic-fileset", "manifest %q, map order seed %d: extra file %s", mname, seed, p)
 			return
 		}
